@@ -7,6 +7,10 @@ import (
 
 func DecodeSecret(secret string) ([]byte, error) {
 	secret = strings.TrimSpace(secret)
+	// The base32 decoder skips line breaks. Drop them before the padding is
+	// computed: otherwise they shift the final quantum and the decoder stops
+	// checking what follows the first '=' ("2222222=\n0" decoded to 4 bytes).
+	secret = strings.NewReplacer("\r", "", "\n", "").Replace(secret)
 	if n := len(secret) % 8; n != 0 {
 		secret = secret + strings.Repeat("=", 8-n)
 	}
